@@ -303,6 +303,10 @@ def _generalized_kraus(q_oper, threshold=1e-10):
 
     # Truncate away the zero singular values, up to a threshold.
     nonzero_idxs = S > threshold
+    if not nonzero_idxs.any():
+        # The zero map: keep one (vanishing) term so that the operator lists
+        # and the Stinespring pair built from them are well formed.
+        nonzero_idxs[0] = True
     dK = nonzero_idxs.sum()
     U = np.array(U)[:, nonzero_idxs]
     # We also want S to be a single index array, which np.matrix
